@@ -369,7 +369,7 @@ def splice_body(body: str, spec: FnSpec, n_loops: int, key: str) -> str:
             txt = "ensures false" if m.group(2) == "diverge" else ""
         return f"{m.group(1)} {txt.strip()} {{" if txt.strip() else f"{m.group(1)} {{"
     body = re.sub(r"(\|[^|]*\|)\s*\{\s*__vx_(diverge|closure)!\((\d+)\);", clos, body)
-    if "__vx_" in body:
+    if re.search(r"__vx_\w+!", body):
         raise Undecided(f"{key}: unreplaced marker")
     # proof insertions
     if spec:
@@ -495,6 +495,7 @@ class Assembled:
     def __init__(self):
         self.text = ""
         self.fn_ranges = []   # (start_line, end_line, key, kind) kind in fn|canary
+        self.body_ranges = [] # (first_line, last_line) of every emitted function body
         self.labels = []      # (line, label)
         self.fns = {}
         self.unit = None
@@ -636,7 +637,9 @@ def assemble(unit: dict, scratch: str, passname="A") -> Assembled:
                 m = re.search(r"//@\s*(\S+)", cl)
                 if m:
                     asm.labels.append((cstart + i, m.group(1)))
+            bstart = lines + 1
             emit(body)
+            asm.body_ranges.append((bstart, lines))
             asm.fn_ranges.append((start, lines, key, "fn"))
             asm.fns[key] = f
             if sp and sp.contract.strip() and not sp.trusted and sp.no_canary is None and unit.get("canaries", True):
@@ -648,7 +651,9 @@ def assemble(unit: dict, scratch: str, passname="A") -> Assembled:
                 emit("/*@canary*/ " + fn_header(f, name_override=f["name"] + "__canary"))
                 req = strip_ensures(contract)
                 emit(req + ("\n" if req.strip() else "") + "    ensures false,")
+                bstart = lines + 1
                 emit(body)
+                asm.body_ranges.append((bstart, lines))
                 asm.fn_ranges.append((cs, lines, key, "canary"))
                 asm.n_canaries += 1
         if g is not None:
@@ -663,10 +668,12 @@ def assemble(unit: dict, scratch: str, passname="A") -> Assembled:
                 for it in f.get("impl_assoc", []):
                     an = it.split()[1]
                     hdr = hdr.replace(f"Self::{an}", f"<Self as {f['trait']}>::{an}")
-                emit(hdr)
+                emit("/*@canary*/ " + hdr)
                 req = strip_ensures(contract)
                 emit(req + ("\n" if req.strip() else "") + "    ensures false,")
+                bstart = lines + 1
                 emit(body)
+                asm.body_ranges.append((bstart, lines))
                 asm.fn_ranges.append((cs, lines, key, "canary"))
                 asm.n_canaries += 1
             emit("}")
@@ -691,16 +698,29 @@ def shard_text(asm: "Assembled", kind: str) -> str:
     s0, s1 = asm.spec_region
     pat = re.compile(r"^(pub\s+)?(broadcast\s+)?proof\s+fn\s")
     XB = "#[verifier::external_body] "
+    blank = []   # header line numbers (0-based) of externalised exec functions
     for i, l in enumerate(lines):
         ln = i + 1
         if s0 <= ln <= s1 and kind != "lemmas" and pat.match(l):
             lines[i] = XB + l
         elif l.startswith("/*@exec*/ ") and kind != "fns":
-            if i > 0 and "external_body" in lines[i - 1]:
-                continue
-            lines[i] = XB + l
+            if not (i > 0 and "external_body" in lines[i - 1]):
+                lines[i] = XB + l
+            blank.append(i)
         elif l.startswith("/*@canary*/ ") and kind != "canaries":
             lines[i] = XB + l
+            blank.append(i)
+    # an externalised body is not checked by Verus but still has to be plain Rust: drop it (same line count)
+    for h in blank:
+        for (b0, b1) in asm.body_ranges:
+            if b0 - 1 > h:
+                nxt = b0 - 1
+                break
+        else:
+            continue
+        lines[nxt] = "{ unimplemented!() }"
+        for j in range(nxt + 1, b1):
+            lines[j] = ""
     return "\n".join(lines)
 
 
